@@ -1,0 +1,5 @@
+//go:build !verif
+
+package definition
+
+func verifHook(point string, owner any, key string) {}
